@@ -23,6 +23,7 @@ MAP = [
     ("wraps around 2^64", ["C11", "C19"]), ("count exceeds the length of the data", ["C11"]),
     ("not a multiple of the entry size", ["C11"]), ("into its own subtree", ["C04", "C02"]),
     ("truncated target", ["C09", "C19", "C05"]),
+    ("never started the shrinker", ["C05"]),
 ]
 log = subprocess.run(["git", "-C", "/repo", "log", "--reverse", "--format=%h\t%s"], stdout=subprocess.PIPE, text=True).stdout
 p = os.path.join(VERIF, "known_findings.json")
